@@ -7,6 +7,9 @@ Inv2 == SingleTamperDetected(TRUE)
 Inv3 == JointExceptionPasses
 \* as built before the repair: the algorithm field of AA evidence is not compared
 AsBuiltGap == ~SingleTamperDetected(FALSE)
+\* as built: (r, n - s) verifies - TLC must find CongruentSignatureDetected false (known finding C14)
+AsBuiltMalleable == ~CongruentSignatureDetected
+Inv4 == OutOfRangeDetected
 Emit == PrintT(<< "T", CamFields, CaFields, AaFields >>)
 \* the expected offline vector of every (live set, live PA verdict, tamper): replayed into the real Verifier
 EmitV == phase = "verified" => PrintT(<< "V", live, livePa, tamper, offline >>)
